@@ -108,6 +108,11 @@ theorem b_mono_weekdays (t₁ t₂ n r₁ r₂ : Int) (h : t₁ ≤ t₂) (w₁ 
     unfold wdOf ofOrd DAYUS at *
     omega
 
+-- hypotheses are satisfiable: Tue 2021-03-09 10:00 ≤ Thu 2021-03-11 09:00, both weekdays, bumped by 3b
+example : (63750880800000000 : Int) ≤ 63751050000000000 ∧ wdOf 63750880800000000 < 5 ∧ wdOf 63751050000000000 < 5 ∧
+    okVal (applyStep 63750880800000000 (.bday 3)) = some 63751140000000000 ∧
+    okVal (applyStep 63751050000000000 (.bday 3)) = some 63751482000000000 := by decide +kernel
+
 /-! ### the unit table (generated from the `bmp.endswith` chain) and the fixed-length units -/
 
 /-- which unit letter does what: `d` days, `w` 7 days, `m` months, `q` 3 months, `y` years, `h`/`n`/`s`
@@ -144,6 +149,8 @@ theorem fixed_units_exact (t n : Int) (c : Char) (us : Int) (hc : unitUs c = som
   · refine ⟨_, (unit_table n).2.2.2.2.2.2.1, ?_⟩; simp only [applyStep]; congr 1; omega
   · refine ⟨_, (unit_table n).2.2.2.2.2.2.2.1, ?_⟩; simp only [applyStep]; congr 1; omega
 
+example : unitUs 'w' = some 604800000000 := rfl
+
 /-- integers are days and timedeltas are added as they are -/
 theorem int_and_timedelta (t n us : Int) :
     bumpOne t (.int n) = checkRange (t + n * 86400000000) ∧ bumpOne t (.delta us) = checkRange (t + us) := by
@@ -156,6 +163,9 @@ theorem fixed_inverse (t k t' : Int) (h : checkRange (t + k) = .ok t') (ht : che
   rw [h.2]
   have : t + k + -k = t := by omega
   rw [this]; exact ⟨ht.1, rfl⟩
+
+example : okVal (checkRange (63082281600000000 + 3600000000)) = some 63082285200000000 ∧
+    okVal (checkRange 63082281600000000) = some 63082281600000000 := by decide +kernel
 
 /-! ### months, quarters, years: `_ymd(t.year + dy, t.month + dm, t.day)` on the generated `ym` / `ymd` -/
 
